@@ -91,10 +91,27 @@ def make_pair(ci):
     return p
 
 
+def bookkeeping(sm):
+    """The model keeps State objects in hashed containers (a set of visited states, a dict keyed
+    by state), as a listener that records the `source` / `target` it is handed would: equal
+    states must keep finding each other there, in the original and in a clone."""
+    mod = sm.model
+    visited = getattr(mod, "visited", None)
+    if visited is None:
+        return None
+    out = []
+    for st in sm.states:
+        out.append((st.id, st in visited, mod.by_state.get(st, "<missing>")))
+    cur = sm.current_state
+    out.append(("current", cur in visited, mod.by_state.get(cur, "<missing>")))
+    return repr(out)
+
+
 def snapshot(sm, field):
     mod = sm.model
     lis = list(sm._listeners)
     return {
+        "bookkeeping": bookkeeping(sm),
         "value": repr(getattr(mod, field, None)),
         "payload": repr(getattr(mod, "payload", None)),
         "custom": repr(getattr(sm, "custom", "<missing>")),
@@ -136,6 +153,12 @@ def run_case(ci, hist, cut, mech, suf_o, suf_c, order):
     sm = p.impl.sm
     if mech.endswith("-via-model"):
         sm.model.owner = sm
+    if sm.current_state_value is not None and len(hist) % 2 == 0:
+        # class-level State objects: what callbacks are handed as `source` / `target`
+        cstates = list(type(sm).states)
+        sm.model.visited = {st for st in cstates if st.id != "s2"} | \
+            {type(sm).states_map[sm.current_state_value]}
+        sm.model.by_state = {st: st.id for st in cstates}
     env = p.impl.env
     env.top, env.stack, env.flat = [], [], []
     CUR.env = env          # a callback run by the copy itself is recorded, not lost
